@@ -536,6 +536,19 @@ func (s *replicaSelector) onNotLeader(
 		err = bo.Backoff(retry.BoRegionScheduling, newBackoffErrWithRPCContext("no leader", ctx))
 		return err == nil, err
 	}
+	for _, r := range s.replicas {
+		if isSamePeer(r.peer, leader) && r.hasFlag(notLeaderFlag) && r.isExhausted(maxReplicaAttempt, maxReplicaAttemptTime) {
+			// The peer named as the leader has itself answered NotLeader to this request and has used up its attempts:
+			// the hints go round in a circle because the leadership is still moving. Following the hint gives that
+			// replica one more chance, so back off first, otherwise such a circle is retried forever without consuming
+			// any back-off budget.
+			err = bo.Backoff(retry.BoRegionScheduling, newBackoffErrWithRPCContext("not leader", ctx))
+			if err != nil {
+				return false, err
+			}
+			break
+		}
+	}
 	leaderIdx := s.updateLeader(leader)
 	if leaderIdx >= 0 {
 		if isLeaderCandidate(s.replicas[leaderIdx]) {
